@@ -127,6 +127,10 @@ class SigmaDetectionItem(ProcessingItemTrackingMixin, ParentChainMixin):
             field = None
             modifier_ids = list()
         else:  # key-value detection
+            if not isinstance(key, str):  # e.g. a YAML key written as number
+                raise sigma_exceptions.SigmaDetectionError(
+                    f"Field name '{key}' of a detection item must be a string", source=source
+                )
             field, *modifier_ids = key.split("|")
             if field == "":
                 field = None
